@@ -311,6 +311,45 @@ Check C12_debian :
   deb_lossy_sat f pv = Ok (deb_spec (lookup_version pv) f).
 Print Assumptions C12_debian.
 
+(* SUMMARY — one field, one assignment of installed versions: the lossless evaluator (on the tree
+   built by the constructors and on the tree built through set_version), the lossy evaluator, and
+   the closure / map / pair lookup forms all return Ok of the same answer, the decision table
+   under the Debian ordering.  This is what one record of the `sat` stream shows (lc, sv, yc, ym, yp). *)
+Theorem C12_main :
+  forall (f : list (list (rel version))) (asg : list (str * version)),
+  Forall (Forall (fun r => match r_ver r with
+                           | Some (_, v) => ver_safe v = true /\ exists text, parse_version text = Some v
+                           | None => True end)) f ->
+  Forall (fun kv => ver_safe (snd kv) = true) asg ->
+  let installed := find_last asg in
+  let answer := deb_spec installed f in
+  exists t_new t_set,
+    deb_build_field f = Ok t_new /\ deb_sv_field f = Ok t_set /\
+    deb_ll_sat t_new (LFn installed) = Ok answer /\ deb_ll_sat t_new (LMap (hm_of_list asg)) = Ok answer /\
+    deb_ll_sat t_set (LFn installed) = Ok answer /\ deb_ll_sat t_set (LMap (hm_of_list asg)) = Ok answer /\
+    deb_lossy_sat f (LFn installed) = Ok answer /\ deb_lossy_sat f (LMap (hm_of_list asg)) = Ok answer /\
+    (forall n v, asg = [(n, v)] ->
+       deb_ll_sat t_new (LPair n v) = Ok answer /\ deb_ll_sat t_set (LPair n v) = Ok answer /\
+       deb_lossy_sat f (LPair n v) = Ok answer).
+Proof. exact deb_main. Qed.
+Check C12_main :
+  forall (f : list (list (rel version))) (asg : list (str * version)),
+  Forall (Forall (fun r => match r_ver r with
+                           | Some (_, v) => ver_safe v = true /\ exists text, parse_version text = Some v
+                           | None => True end)) f ->
+  Forall (fun kv => ver_safe (snd kv) = true) asg ->
+  let installed := find_last asg in
+  let answer := deb_spec installed f in
+  exists t_new t_set,
+    deb_build_field f = Ok t_new /\ deb_sv_field f = Ok t_set /\
+    deb_ll_sat t_new (LFn installed) = Ok answer /\ deb_ll_sat t_new (LMap (hm_of_list asg)) = Ok answer /\
+    deb_ll_sat t_set (LFn installed) = Ok answer /\ deb_ll_sat t_set (LMap (hm_of_list asg)) = Ok answer /\
+    deb_lossy_sat f (LFn installed) = Ok answer /\ deb_lossy_sat f (LMap (hm_of_list asg)) = Ok answer /\
+    (forall n v, asg = [(n, v)] ->
+       deb_ll_sat t_new (LPair n v) = Ok answer /\ deb_ll_sat t_set (LPair n v) = Ok answer /\
+       deb_lossy_sat f (LPair n v) = Ok answer).
+Print Assumptions C12_main.
+
 (* The statement without the digit-run guard, kept visible: it is FALSE for the linked crate. *)
 Definition C12_full : Prop :=
   forall (t : rtree) (f : list (list (rel version))) (pv : lookup version),
@@ -379,6 +418,39 @@ Proof.
   split; [repeat constructor|].
   split; [vm_compute; reflexivity|]. split; [vm_compute; reflexivity|].
   repeat split; vm_compute; reflexivity.
+Qed.
+
+(* the hypotheses of C12_main hold for a field with epochs, '~', revisions, all five operators *)
+Example C12_ex_main_hypotheses :
+  exists v1 v2 v3 v4 v5 a1 a2,
+    parse_version (s2l "1:2.0~rc1-3") = Some v1 /\ parse_version (s2l "0.19.0+dfsg-2~bpo1") = Some v2 /\
+    parse_version (s2l "2147483647") = Some v3 /\ parse_version (s2l "1.0-1") = Some v4 /\
+    parse_version (s2l "0:1.00-01") = Some v5 /\
+    parse_version (s2l "1:2.0-3") = Some a1 /\ parse_version (s2l "1.0-1+b1") = Some a2 /\
+    let f := [[mk_rel (s2l "a") (Some (OpGe, v1)); mk_rel (s2l "b") (Some (OpLt, v2))];
+              [mk_rel (s2l "c") (Some (OpLe, v3))]; [mk_rel (s2l "d") (Some (OpEq, v5)); mk_rel (s2l "e") None];
+              [mk_rel (s2l "d") (Some (OpGt, v4))]] in
+    let asg := [(s2l "a", a1); (s2l "c", v4); (s2l "d", v4); (s2l "d", a2)] in
+    Forall (Forall (fun r => match r_ver r with
+                             | Some (_, v) => ver_safe v = true /\ exists text, parse_version text = Some v
+                             | None => True end)) f /\
+    Forall (fun kv => ver_safe (snd kv) = true) asg /\
+    deb_spec (find_last asg) f = false /\
+    deb_spec (find_last (asg ++ [(s2l "e", v4)])) f = true.
+Proof.
+  eexists _, _, _, _, _, _, _.
+  do 7 (split; [vm_compute; reflexivity|]). cbv zeta.
+  split; [|split; [|split]].
+  - repeat apply Forall_cons; try apply Forall_nil; cbn [r_ver]; try exact I;
+      (split; [vm_compute; reflexivity|]).
+    + exists (s2l "1:2.0~rc1-3"). vm_compute. reflexivity.
+    + exists (s2l "0.19.0+dfsg-2~bpo1"). vm_compute. reflexivity.
+    + exists (s2l "2147483647"). vm_compute. reflexivity.
+    + exists (s2l "0:1.00-01"). vm_compute. reflexivity.
+    + exists (s2l "1.0-1"). vm_compute. reflexivity.
+  - repeat apply Forall_cons; try apply Forall_nil; vm_compute; reflexivity.
+  - vm_compute. reflexivity.
+  - vm_compute. reflexivity.
 Qed.
 
 (* epochs reach the lossless evaluator through the constructors; the versions survive
